@@ -309,4 +309,21 @@ def buildGreedy {F : Type} (ops : FOps F) (ring : Bytes) (pos mask prevByte prev
         cmdHistos := cmd.flat, cmdHistosSize := cmd.histosSize,
         distHistos := dist.flat, distHistosSize := dist.histosSize }
 
+/-! ### `BrotliOptimizeHistograms` (run by `encode.rs` between the builder and the writer at quality ≥ 4) -/
+
+/-- `for i in 0..size { BrotliOptimizeHuffmanCountsForRle(length, histograms[i].slice_mut(), &mut good_for_rle[..]) }`
+with the 704-byte `good_for_rle` buffer (the callee zeroes it itself before use) -/
+def optimizeHistos (length : Nat) (histos : List (List Nat)) (size : Nat) : Out (List (List Nat)) :=
+  (List.range size).foldlM (fun hs i => do
+    let h ← getAt hs i
+    let h' ← BV.Huffman.optimizeHuffmanCountsForRle length h (List.replicate 704 0)
+    setAt hs i h') histos
+
+/-- `BrotliOptimizeHistograms(num_distance_codes, mb)` -/
+def optimizeHistograms (numDistanceCodes : Nat) (mb : MBSplit) : Out MBSplit := do
+  let l ← optimizeHistos 256 mb.litHistos mb.litHistosSize
+  let c ← optimizeHistos 704 mb.cmdHistos mb.cmdHistosSize
+  let d ← optimizeHistos numDistanceCodes mb.distHistos mb.distHistosSize
+  .ok { mb with litHistos := l, cmdHistos := c, distHistos := d }
+
 end BV.Greedy
